@@ -234,20 +234,30 @@ F1_OBSERVED_PRIV = "06f0db13004eab79c1b859e964e0db9450fb7413b5e7893d9a03a6a69c2f
 F1_OBSERVED_PUB = "02e5529829b36a2694c33ab83ccb2c011ef985e1c7bae2b30e93625e9bf95855ae"
 
 
-def _walk_needs_retry(curve, x, path, hm):
-    for i in path:
-        if i > 0xFFFFFFFF or x is None:
-            return False
-        if x.priv is None and i >= HARD:
-            return False
-        if R.retry_needed(curve, x.priv, x.pubc, x.chain, i, hm):
-            return True
-        x = x.child(i, hm)
-    return False
+def _impl_outcome(fn, args, funcs=None):
+    try:
+        return ("ok", (funcs or FUNCS)[fn].impl(args)[:7])
+    except Exception as e:  # noqa
+        from framework import exn_name
+        return ("err", exn_name(e))
+
+
+def is_f1(start, steps, hm, fn, args, funcs=None):
+    """The case is finding F1 iff some child on the way needs SLIP-0010's re-hash AND the implementation does on
+    it exactly what the unfixed code is known to do (so that a different wrong behaviour on the same inputs --
+    e.g. a wrong repair -- is still reported)."""
+    needs, out = R.walk_f1(start, steps, hm)
+    if not needs or out is None:
+        return False
+    got = _impl_outcome(fn, args, funcs)
+    if out[0] == "err":
+        return got == out
+    return got[0] == "ok" and got[1] == out[1].obs()
 
 
 def f1_match(fn, args, record):
-    """A child on an ECDSA curve whose (first) HMAC left half is >= n or whose sum with the parent is 0 mod n."""
+    """A child on an ECDSA curve whose (first) HMAC left half is >= n or whose sum with the parent is 0 mod n,
+    on which the implementation behaves as the code without the re-hash branch."""
     try:
         curve = args[0]
         if curve not in (0, 1):
@@ -256,18 +266,45 @@ def f1_match(fn, args, record):
             seed, path = args[1], args[-1]
             if len(seed) < 16:
                 return False
-            return _walk_needs_retry(curve, R.master_node(curve, seed), path, R.hmac512)
+            return is_f1(R.master_node(curve, seed), [("child", i) for i in path], R.hmac512, fn, args)
         if fn == "priv_path":
-            return _walk_needs_retry(curve, _start(args), args[10], hm_of(args[1]))
+            steps = [("child", i) for i in args[10]] + ([("neuter",)] if args[8] else [])
+            return is_f1(_start(args), steps, hm_of(args[1]), fn, args)
     except Exception:  # noqa
         return False
     return False
 
 
+def f1_replays():
+    """(description, thunk giving the observed value, expected value) for the recorded inputs of F1: the published
+    vector, and one forced-HMAC instance of each branch the vector does not reach."""
+    out = [("Bip32Slip10Nist256p1 seed 000102..0f m/28578'/33941 private key",
+            lambda: CLS[1].FromSeed(F1_SEED).DerivePath(Bip32Path(F1_PATH)).PrivateKey().Raw().ToHex(), F1_EXPECTED)]
+    for curve in (0, 1):
+        n = R.WEIER[curve].n
+        kb = (n // 3).to_bytes(32, "big")
+        chain, ir, i = bytes(range(32)), bytes(range(32, 64)), 7
+        pubc = R.pub_bytes(curve, kb)
+        data0 = pubc + i.to_bytes(4, "big")
+        for tag, il, pub_first in (("left half = n, private", n, 0), ("zero child, private", n - n // 3, 0),
+                                   ("left half = n, watch-only", n, 1), ("child at infinity, watch-only", n - n // 3, 1)):
+            a = [curve, [[data0, il.to_bytes(32, "big") + ir]], kb, 1, 1, chain, bytes(4), pub_first, 0, 0, [i]]
+            exp = _expect(curve, _start(a), [i], hm_of(a[1]))[1].obs()[:3]
+
+            def thunk(a=a):
+                try:
+                    return _h(impl_priv_path(a)[:3])
+                except Exception as e:  # noqa
+                    return type(e).__name__
+            out.append(("%s child with forced HMAC (%s)" % (CLS[curve].__name__, tag), thunk, _h(exp)))
+    return out
+
+
 def f1_match_replay():
-    got = CLS[1].FromSeed(F1_SEED).DerivePath(Bip32Path(F1_PATH)).PrivateKey().Raw().ToHex()
-    if got != F1_EXPECTED:
-        return "Bip32Slip10Nist256p1 seed 000102..0f m/28578'/33941 gives %s, SLIP-0010 prescribes %s" % (got, F1_EXPECTED)
+    for what, thunk, exp in f1_replays():
+        got = thunk()
+        if got != exp:
+            return "%s: %s, SLIP-0010 prescribes %s" % (what, got, exp)
     return None
 
 
